@@ -41,17 +41,22 @@ impl Arena {
         let align = align_of::<T>();
         let size = size_of::<T>();
 
-        let padding = (align - inner.offset % align) % align;
-        let new_offset = inner.offset + padding + size;
+        // The buffers are byte slices, so the allocator gives no alignment guarantee for
+        // them: the padding has to align the *address* of the slot, not its offset.
+        let mut padding = padding_for(inner.current_buf.as_ptr().addr() + inner.offset, align);
 
-        if new_offset > inner.current_buf.len() {
+        if inner.offset + padding + size > inner.current_buf.len() {
             // double previous capacity
             let new_capacity = inner.current_buf.len() * 2;
-            // and make sure capacity is enough to hold at least a single T
-            let new_capacity = new_capacity.max(size);
+            // and make sure capacity is enough to hold at least a single T,
+            // wherever the allocator places the new buffer
+            let new_capacity = new_capacity.max(size + align - 1);
             let new_buf: Box<[MaybeUninit<u8>]> = Box::new_uninit_slice(new_capacity);
             let old_buf = std::mem::replace(&mut inner.current_buf, new_buf);
             inner.old_bufs.push(old_buf);
+            // the new buffer is empty: start again from its beginning
+            inner.offset = 0;
+            padding = padding_for(inner.current_buf.as_ptr().addr(), align);
         }
 
         let start = inner.offset + padding;
@@ -64,6 +69,12 @@ impl Arena {
         inner.offset = start + size;
         Ar::new(ptr)
     }
+}
+
+/// number of bytes to skip so that `addr` becomes a multiple of `align` (a power of two)
+#[inline]
+fn padding_for(addr: usize, align: usize) -> usize {
+    (align - addr % align) % align
 }
 
 impl Default for Arena {
